@@ -709,7 +709,7 @@ class ThreadEngine(Engine):
     chunks = {"quick": 20, "thorough": 200}
     watchdog_s = 900
     shrink_budget = 200
-    rule = ("each case is one simulated run over 1-3 declarations drawn from a pool of 30 (defined fresh; code generation and "
+    rule = ("each case is one simulated run over 1-3 declarations drawn from a pool of 36 (defined fresh; in a quarter of the runs every module-level size bound of the library - names like _MAX_..., ..._LIMIT, ..._CACHE_SIZE - is set to 1 or 2 in twin and simulated worlds alike; code generation and "
             "vectorize drawn). mode random (3 of 4 runs): 1-3 baton-passed actor threads owning 1-3 packets each (at least two "
             "packets share a class), 1-10 operations per packet generated against the packet's solo twin (NEW, PARSE valid / "
             "malformed, SET, APPEND, POP, PACK, PACK twice, READ + epilogue), thread switches at operation boundaries and at <=4 "
